@@ -464,6 +464,10 @@ def run_case(case):
                     # compared when their margin is well above it
                     dav, dsc, dchi, dres = f32_budget(case, src, e)
                     guard = max(guard, 20. * max(dav, dres))
+                # a decision (clamp, side of a limit) is only as firm as the residuals it rests on: inside its rounding
+                # budget (A_V, scale) may move every residual by kmax*tav + 2*tsc (C01_excess_bound's quantity) - a
+                # decision closer than that to its threshold is a margin case.  1e-8-ish unless ill conditioned.
+                guard = max(guard, wsum_kmax[1] * tol * (1. + abs(float(e['av']))) + 2. * tol * (1. + abs(float(e['sc']))))
                 if e['margin'] < guard:
                     relaxed += 1
                     continue
